@@ -55,6 +55,31 @@ func isNamed(t types.Type, pkg, name string) bool {
 // json.RawMessage / string / []byte values (the contract: Encode performs exactly one Write of the encoding followed by
 // a newline; Unmarshal is a function of its input bytes and copies what it keeps).
 func addStubIntrinsics(t map[string]Intrinsic) {
+	// http.Client.Do is I/O and whole-program: contract stub "the request is handed to the client's RoundTripper once
+	// and its answer is returned" (redirects, cookies and timeouts of the real client are outside the claim).
+	t["(*net/http.Client).Do"] = func(m *Machine, fr *Frame, fn *ssa.Function, a []Value) Value {
+		m.noteStub("net/http.Client.Do (stub: one RoundTrip on the client's Transport)")
+		cp := a[0].(*Value)
+		if cp == nil {
+			m.runtimePanic(fr, "nil *http.Client")
+		}
+		st := under(derefType(fn.Signature.Recv().Type())).(*types.Struct)
+		for i := 0; i < st.NumFields(); i++ {
+			if st.Field(i).Name() == "Transport" {
+				rt := (*cp).(StructV)[i].(IfaceV)
+				if rt.T == nil {
+					m.unsupported("http.Client without Transport (the default transport is real I/O)")
+				}
+				r, ok := m.callMethod(fr, rt, "RoundTrip", a[1])
+				if !ok {
+					m.unsupported("Transport without RoundTrip")
+				}
+				return r
+			}
+		}
+		m.unsupported("http.Client layout")
+		return nil
+	}
 	t["encoding/json.NewEncoder"] = func(m *Machine, fr *Frame, fn *ssa.Function, a []Value) Value {
 		m.noteStub("encoding/json.NewEncoder (stub)")
 		cell := new(Value)
